@@ -108,7 +108,7 @@ class ShiftedServer(QueuedResource):
         downstream: Entity | None = None,
         policy: QueuePolicy | None = None,
     ):
-        super().__init__(name, policy=policy or FIFOQueue())
+        super().__init__(name, policy=policy if policy is not None else FIFOQueue())
         self.schedule = schedule
         self.service_time = service_time
         self.downstream = downstream
